@@ -233,8 +233,43 @@ def find_result_checked_before_use(ctx):
     ctx.floor("find_deref_sites", 8, "dereferences of iterators returned by map/set find()")
 
 
+def pressure_without_total_only_from_legacy_format(ctx):
+    """Precondition of an audited throw: Senpai's getPressureTotalSome throws when a pressure record has no `total` ("legacy PSI ... is a
+    kernel configuration, not a fault").  That holds only while the PSI readers hand out a record without total for the EXPERIMENTAL
+    format alone: every other ResourcePressure they build carries all four fields.  A default-constructed record for an empty / odd file
+    would turn a transient file state into that exception - out of the tick, out of the main loop."""
+    P, cg = ctx.prog, ctx.cg
+    n = 0
+    for f in sorted(P.fns.values(), key=lambda x: (x.file, x.line, x.usr)):
+        if f.file != "oomd/util/Fs.cpp":
+            continue
+        fl = None
+        for i, nd in enumerate(f.nodes):
+            if nd.get("k") not in ("initlist", "construct") or not (nd.get("type") or "").replace("const ", "").endswith("ResourcePressure") or f.pos_of(i) is None:
+                continue
+            kids = nd.get("kids", nd.get("args", []))
+            if nd["k"] == "construct" and nd.get("copymove"):
+                continue
+            n += 1
+            ctx.use(f)
+            full = len(kids) >= 4 and f.text(kids[3]) not in ("std::nullopt", "{}")
+            if full:
+                continue
+            fl = fl or Flow(P, f, cg=cg)
+            g = fl.guards(i)
+            legacy = any((isinstance(p_, str) and p_ == "case:EXPERIMENTAL") or (isinstance(k, str) and "EXPERIMENTAL" in k and "==" in k and p_ is True) for k, p_ in g)
+            ctx.check(legacy, "pressure-without-total-only-from-legacy-format:%s@%d" % (short(f), nd.get("line", 0)), "guarded_by (precondition of an audited throw)", f.loc(i),
+                      "a pressure record without `total` is built only for the EXPERIMENTAL format",
+                      "%s builds a ResourcePressure without a total (%s) outside the EXPERIMENTAL-format branch: Senpai's getPressureTotalSome answers a record "
+                      "without total with std::runtime_error, which nothing between Senpai::run and the main loop catches - an empty or half-written "
+                      "memory.pressure now takes the daemon down instead of making the statistic unavailable for the tick" % (f.pq, f.text(i)[:50]))
+    ctx.counters["pressure_record_constructions"] = n
+    ctx.floor("pressure_record_constructions", 2, "ResourcePressure constructions in the PSI readers")
+
+
 def run(ctx):
     find_result_checked_before_use(ctx)
+    pressure_without_total_only_from_legacy_format(ctx)
     from .C09 import selection_index_is_within_the_selected_range
     selection_index_is_within_the_selected_range(ctx)
     from .C15 import every_context_refreshed
